@@ -29,7 +29,7 @@ REPO = Path(os.environ.get("VERIF_REPO", "/repo"))
 FLAG = {"GOOD": ".good", "UNKNOWN": ".unknown", "SUSPECT": ".suspect", "FAIL": ".fail", "MISSING": ".missing"}
 FUNCS = {"gross_range_test": "ioos_qc/qartod.py", "spike_test": "ioos_qc/qartod.py", "rate_of_change_test": "ioos_qc/qartod.py",
          "location_test": "ioos_qc/qartod.py", "density_inversion_test": "ioos_qc/qartod.py",
-         "speed_test": "ioos_qc/argo.py", "pressure_increasing_test": "ioos_qc/argo.py", "valid_range_test": "ioos_qc/axds.py"}
+         "flat_line_test": "ioos_qc/qartod.py", "speed_test": "ioos_qc/argo.py", "pressure_increasing_test": "ioos_qc/argo.py", "valid_range_test": "ioos_qc/axds.py"}
 
 
 class Untranslatable(Exception):
@@ -48,6 +48,19 @@ def is_call(node, dotted):
 NORMALISE = "np.ma.masked_invalid(np.ma.array({0}).astype(np.float64).filled(np.nan))"
 NORMALISE_FILLED = "np.ma.filled(np.ma.masked_invalid(np.ma.array({0}).astype(np.float64)), np.nan)"      # a PLAIN array, NaN at missing values
 NORMALISE_JUNK = "np.ma.masked_invalid(np.ma.array({0}, dtype=dtype))"                                    # raw data under the mask kept
+
+
+# The helper `rolling_window` of flat_line_test is read as ONE primitive (`rollingWindow`, Model/Np) — only in exactly this form.
+ROLLING_WINDOW = ast.unparse(ast.parse('''
+def rolling_window(a, window):
+    """https://rigtorp.se/2011/01/01/rolling-statistics-numpy.html."""
+    if len(a) < window:
+        return np.ma.MaskedArray(np.empty((0, window + 1)))
+    shape = a.shape[:-1] + (a.shape[-1] - window + 1, window + 1)
+    strides = (*a.strides, a.strides[-1])
+    arr = np.lib.stride_tricks.as_strided(a, shape=shape, strides=strides)
+    return np.ma.masked_invalid(arr[:-1, :])
+''').body[0])
 
 
 class Tr:
@@ -70,7 +83,7 @@ class Tr:
             return "Bool"
         elif p == "bbox":
             return "SeqArg"
-        elif p == "range_max":
+        elif p in ("range_max", "tolerance"):
             t = "Rat"
         elif p == "tinp":
             t = "List Int"
@@ -88,7 +101,7 @@ class Tr:
     def scalar(self, e):
         if isinstance(e, ast.Attribute) and isinstance(e.value, ast.Name) and self.kind.get(e.value.id) == "span" and e.attr in ("minv", "maxv"):
             return f"{e.value.id}.{1 if e.attr == 'minv' else 2}"
-        if isinstance(e, ast.Name) and e.id in self.params and (e.id.endswith("threshold") or e.id == "range_max"):
+        if isinstance(e, ast.Name) and e.id in self.params and (e.id.endswith("threshold") or e.id in ("range_max", "tolerance")):
             return e.id
         if isinstance(e, ast.Attribute) and isinstance(e.value, ast.Name) and self.kind.get(e.value.id) == "box" \
                 and e.attr in ("minx", "miny", "maxx", "maxy"):
@@ -176,6 +189,8 @@ class Tr:
 
     def bind(self, ind, name, rhs, kind):
         self.kind[name] = kind
+        if getattr(self, "pure_mode", False):            # inside a local function: plain (shadowing) lets
+            return self.emit(ind, f"let {name} := {rhs}")
         if name in self.params and name not in getattr(self, "rebound", set()):
             self.rebound = getattr(self, "rebound", set()) | {name}
             self.emit(ind, f"let {name} := {rhs}")
@@ -228,9 +243,48 @@ class Tr:
             raise Untranslatable(f"return {src(v)}")
         if isinstance(st, ast.If):
             return self.if_stmt(st, ind)
+        if isinstance(st, ast.FunctionDef):
+            return self.local_def(st, ind)
+        if isinstance(st, ast.Expr) and isinstance(st.value, ast.Call) and isinstance(st.value.func, ast.Name) \
+                and st.value.func.id in getattr(self, "local_funcs", {}):
+            # a call of a local function that assigns into the enclosing `flag_arr`: the array is threaded through
+            tgt, nargs = self.local_funcs[st.value.func.id]
+            args = st.value.args
+            if len(args) != nargs or st.value.keywords:
+                raise Untranslatable(f"call {src(st.value)}")
+            return self.emit(ind, f"{tgt} := {st.value.func.id} {tgt} {self.scalar(args[0])} {self.flag(args[1])}")
         if isinstance(st, ast.Assign) and len(st.targets) == 1:
             return self.assign(st.targets[0], st.value, ind)
         raise Untranslatable(f"statement {src(st)[:80]}")
+
+    def local_def(self, fn, ind):
+        if fn.name == "rolling_window":
+            if ast.unparse(fn) != ROLLING_WINDOW:
+                raise Untranslatable("rolling_window is not in the form read as the primitive rollingWindow")
+            self.prims = {**getattr(self, "prims", {}), "rolling_window": "rollingWindow"}
+            return None
+        # def run_test(test_threshold, flag_value) -> None: … flag_arr[test_results] = flag_value
+        args = [a.arg for a in fn.args.args]
+        last = fn.body[-1]
+        if not (args == ["test_threshold", "flag_value"] and isinstance(last, ast.Assign) and isinstance(last.targets[0], ast.Subscript)
+                and isinstance(last.targets[0].value, ast.Name) and self.kind.get(last.targets[0].value.id) == "flags"
+                and isinstance(last.targets[0].slice, ast.Name) and src(last.value) == "flag_value"):
+            raise Untranslatable(f"local function {fn.name}")
+        tgt = last.targets[0].value.id
+        self.emit(ind, f"let {fn.name} := fun ({tgt} : List Flag) (test_threshold : Rat) (flag_value : Flag) =>")
+        saved = (self.params, dict(self.kind), set(self.declared))
+        self.params = [*self.params, "test_threshold"]
+        self.pure_mode = True
+        try:
+            self.block(fn.body[:-1], ind + 1)
+            if self.kind.get(last.targets[0].slice.id) != "bools":
+                raise Untranslatable(f"index {src(last.targets[0].slice)}")
+            self.emit(ind + 1, f"setWhere {tgt} {last.targets[0].slice.id} flag_value")
+        finally:
+            self.pure_mode = False
+            self.params, self.kind, self.declared = saved
+        self.local_funcs = {**getattr(self, "local_funcs", {}), fn.name: (tgt, 2)}
+        return None
 
     def assign(self, tgt, val, ind):  # noqa: C901, PLR0912
         if isinstance(tgt, ast.Name):
@@ -241,6 +295,29 @@ class Tr:
                 return
             if name == "tinp" and src(val) == "mapdates(tinp)":
                 return
+            if src(val) == "np.median(np.diff(tinp)).astype('timedelta64[s]').astype(float)":
+                return self.bind(ind, name, "medianStep tinp", "int")
+            if src(val) == "(int(test_threshold) / time_interval).astype(int)" and self.kind.get("time_interval") == "int":
+                return self.bind(ind, name, "flatCount test_threshold time_interval", "nat")
+            if isinstance(val, ast.Call) and isinstance(val.func, ast.Name) and val.func.id in getattr(self, "prims", {}) and len(val.args) == 2 \
+                    and all(isinstance(a, ast.Name) for a in val.args) and self.kind.get(val.args[0].id) == "marr" and self.kind.get(val.args[1].id) == "nat":
+                return self.bind(ind, name, f"{self.prims[val.func.id]} {val.args[0].id} {val.args[1].id}", "win")
+            if (is_call(val, "np.min") or is_call(val, "np.max")) and len(val.args) == 2 and isinstance(val.args[0], ast.Name) \
+                    and self.kind.get(val.args[0].id) == "win" and src(val.args[1]) == "1" and not val.keywords:
+                return self.bind(ind, name, f"{'rowMin' if is_call(val, 'np.min') else 'rowMax'} {val.args[0].id}", "marr")
+            if is_call(val, "np.ma.filled") and len(val.args) == 1 and [(k.arg, src(k.value)) for k in val.keywords] == [("fill_value", "False")]:
+                return self.bind(ind, name, f"filledFalse ({self.bexpr(val.args[0])})", "bools")
+            if is_call(val, "min") and len(val.args) == 2 and is_call(val.args[0], "len") and isinstance(val.args[0].args[0], ast.Name) \
+                    and self.kind.get(val.args[0].args[0].id) == "marr" and isinstance(val.args[1], ast.Name) and self.kind.get(val.args[1].id) == "nat":
+                return self.bind(ind, name, f"min {val.args[0].args[0].id}.length {val.args[1].id}", "nat")
+            if is_call(val, "np.insert") and len(val.args) == 3 and isinstance(val.args[0], ast.Name) and self.kind.get(val.args[0].id) == "bools" \
+                    and src(val.args[1]) == "0" and is_call(val.args[2], "np.full") and len(val.args[2].args) == 2 and src(val.args[2].args[1]) == "False" \
+                    and isinstance(val.args[2].args[0], ast.Tuple) and len(val.args[2].args[0].elts) == 1 and isinstance(val.args[2].args[0].elts[0], ast.Name) \
+                    and self.kind.get(val.args[2].args[0].elts[0].id) == "nat":
+                return self.bind(ind, name, f"insertFalse {val.args[2].args[0].elts[0].id} {val.args[0].id}", "bools")
+            if is_call(val, "np.full") and len(val.args) == 2 and src(val.args[1]) == "QartodFlags.GOOD" and isinstance(val.args[0], ast.Tuple) \
+                    and len(val.args[0].elts) == 1 and src(val.args[0].elts[0]).endswith(".size"):
+                return self.bind(ind, name, f"ones {src(val.args[0].elts[0])[:-5]}.length", "flags")
             if name == "span_dtype" or (name == "valid_span" and src(val) == "np.ma.masked_invalid(np.array(valid_span, dtype=span_dtype))"):
                 return          # the span is a pair of possibly-missing bounds on the logical domain
             if src(val) == NORMALISE_FILLED.format(name):
@@ -369,6 +446,11 @@ class Tr:
         if isinstance(t, ast.Compare) and len(t.ops) == 1 and type(t.ops[0]) in (ast.Eq, ast.Lt) and src(t.left).endswith(".size") \
                 and isinstance(t.comparators[0], ast.Constant) and isinstance(t.comparators[0].value, int) and not st.orelse:
             self.emit(ind, f"if {src(t.left)[:-5]}.length {'==' if isinstance(t.ops[0], ast.Eq) else '<'} {t.comparators[0].value} then")
+            return self.block(st.body, ind + 1)
+        # if len(a) < k:
+        if isinstance(t, ast.Compare) and len(t.ops) == 1 and isinstance(t.ops[0], ast.Lt) and is_call(t.left, "len") and isinstance(t.left.args[0], ast.Name) \
+                and self.kind.get(t.left.args[0].id) == "marr" and isinstance(t.comparators[0], ast.Constant) and not st.orelse:
+            self.emit(ind, f"if {t.left.args[0].id}.length < {t.comparators[0].value} then")
             return self.block(st.body, ind + 1)
         # if any(c):
         if is_call(t, "any") and len(t.args) == 1 and isinstance(t.args[0], ast.Name) and self.kind.get(t.args[0].id) == "barr" and not st.orelse:
